@@ -316,8 +316,10 @@ func C10(ctx *core.Ctx) {
 	}
 	ctx.Rule("C10.R1", "keyword delimitation: hazardous keyword literals are followed by a negative look-ahead over identifier characters", 14)
 	ctx.Rule("C10.R2", "source/compiled correspondence of rules, expressions and action code", 100)
+	ctx.Rule("C10.R6", "string literals: an action that decodes quoted text with strconv.Unquote does so on every path (both quote styles process escape sequences)", 1)
 	ctx.Rule("C10.R4", "enum numbering: the running counter exceeds every value numbered so far", 1)
 	c10EnumNumbering(ctx)
+	c10Literals(ctx)
 	gs, err := peg.ParseSource(string(src))
 	if err != nil {
 		ctx.LoadError("grammar.peg: " + err.Error())
@@ -676,5 +678,55 @@ func c10EnumNumbering(ctx *core.Ctx) {
 	}
 	if found == 0 {
 		ctx.Unresolved("C10.R4", "enum numbering action", "no parser function numbers EnumValue.Value from a running counter")
+	}
+}
+
+// c10Literals: contradiction rule over the parser's actions — a function that
+// returns strconv.Unquote(text) on one path and a value that did not go
+// through Unquote on another treats the two quote styles differently.
+func c10Literals(ctx *core.Ctx) {
+	cc := LoadCC(ctx)
+	if !cc.OK() {
+		return
+	}
+	pp := cc.Pkg("parser")
+	found := 0
+	for _, fn := range cc.Fns {
+		if fn.Pkg != pp || fn.Signature.Results().Len() != 2 {
+			continue
+		}
+		uses := false
+		for _, c := range ssax.Calls(fn) {
+			if c.FullName() == "strconv.Unquote" {
+				uses = true
+			}
+		}
+		if !uses {
+			continue
+		}
+		found++
+		bad := ""
+		n := 0
+		for ret, vs := range ReturnedValues(fn) {
+			n++
+			v := ssax.Strip(vs[0])
+			if mi, ok := v.(*ssa.MakeInterface); ok {
+				v = ssax.Strip(mi.X)
+			}
+			if c, ok := v.(*ssa.Const); ok && c.IsNil() {
+				continue
+			}
+			if tup, ok := ExtractOf(v, 0); ok {
+				if pc, ok := CallValue(tup); ok && pc.FullName() == "strconv.Unquote" {
+					continue
+				}
+			}
+			bad = cc.V.Pos(ret.Pos())
+		}
+		ctx.Check(bad == "", "C10.R6", QName(fn)+" › every returned literal went through strconv.Unquote", cc.FPos(fn), sprintf("%d returns, all Unquote results", n),
+			"the action returns text that was not unquoted at "+bad+": escape sequences (\\n, \\t, \\\\, \\x..) in one quote style are kept verbatim while the other style decodes them — the model does not contain the declared string")
+	}
+	if found == 0 {
+		ctx.Unresolved("C10.R6", "literal action", "no parser action decodes quoted text with strconv.Unquote")
 	}
 }
